@@ -30,6 +30,10 @@ def proj_route_c04(i, m):
     return [i[3], i[4]], [m[3], m[4]]
 
 
+def proj_slash(i, m):
+    return i, m
+
+
 TB_ROUTING = ['regexp.MatchString / full-segment match are oracles tabulated per case with Go\'s regexp package',
               'RouterJSR311: compiled template expressions are modelled segment-wise (DESIGN 3.3), valid for regex '
               'variables that cannot match "/" or the empty string and have no capture groups',
@@ -44,11 +48,23 @@ TB_GO_STDLIB_CORS = ['strings.ToLower is an oracle (tabulated per case by callin
                      'net/http Header canonicalisation and httptest.ResponseRecorder']
 
 PROPS = {
+    'C14': dict(
+        domains=[dict(name='slash', quick=24000, thorough=600000)],
+        verdicts=['c14_*'],
+        project={'slash': proj_slash},
+        prop_files=['props/C14.v'],
+        trivial_classes=('404',),
+        rule=RULE_ROUTE + '; every request is dispatched twice on the same container, with path p and p + "/"',
+        trusted_base=TB_ROUTING,
+        assumptions=['conditions do not look at the trailing slash (same boolean table for both requests)'],
+        explanation='Theorem Props.C14_curly (route_request is invariant under appending "/") on the Coq model; paired '
+                    'dispatches on the implementation compared with each other and with the model.',
+    ),
     'C01': dict(
         domains=[dict(name='route', quick=32000, thorough=800000)],
         verdicts=['c01_*'],
         project={'route': proj_route_c01},
-        prop_files=[],
+        prop_files=['props/C01.v'],
         trivial_classes=('404',),
         rule=RULE_ROUTE, trusted_base=TB_ROUTING,
         assumptions=['templates outside the documented forms (malformed) are compared model-vs-implementation only'],
